@@ -15,7 +15,7 @@ def make_work(rng, tier):
     for i in range(n):
         tables = sqlgen.make_db(rng, max_rows=rng.choice([6, 15, 30]))
         g = SubGen(rng, tables, {"max_depth": 4, "groups": rng.chance(50), "setops": rng.chance(20), "ctes": True,
-                               "views": i % 3 == 0, "lateral": i % 3 == 1, "quantified_chance": 50})
+                               "views": i % 3 == 0, "lateral": i % 3 == 1, "quantified_chance": 50, "grouped_sub_chance": 45})
         runs = []
         tries = 0
         while len(runs) < 4 and tries < 40:
@@ -84,6 +84,22 @@ def make_work(rng, tier):
                 q = sqlgen.Q(sql, sx, tys, ["r0", "r1"], {"cte", "cte_def", "cte_twice"} | ({"cte_materialized"} if mat else set()))
                 for opt in (True, False):
                     runs.append((q, {"partitions": rng.choice([1, 2]), "enable_optimizer": opt}))
+        # correlated subqueries whose aggregate has its own GROUP BY (the decorrelation must add the correlated
+        # columns to the subquery's grouping sets after its own keys)
+        T = "(fq (table 0))"
+        gq = [
+            ("SELECT x.c0 AS r0, x.c1 AS r1 FROM t0 AS x WHERE (EXISTS (SELECT y.c1 AS o0, count(*) AS o1 FROM t0 AS y WHERE (y.c0 = x.c0) GROUP BY y.c1 HAVING count(*) > 1))",
+             "(select %s (exists 0 (select %s (cmp eq (col 0 0) (col 1 0)) (((col 0 1)) ((countstar 0 (const N)))) (cmp gt (col 0 1) (const (i 1))) ((col 0 0) (col 0 1)) 0)) - - ((col 0 0) (col 0 1)) 0)" % (T, T),
+             ["i32", "i32"]),
+            ("SELECT x.c0 AS r0, (SELECT max(z.o0) AS o0 FROM (SELECT sum(y.c0) AS o0 FROM t0 AS y WHERE (y.c1 = x.c1) GROUP BY y.c0) AS z) AS r1 FROM t0 AS x",
+             "(select %s - - - ((col 0 0) (scalar (select (fq (select %s (cmp eq (col 0 1) (col 1 1)) (((col 0 0)) ((sum 0 (col 0 0)))) - ((col 0 1)) 0)) - (() ((max 0 (col 0 0)))) - ((col 0 0)) 0))) 0)" % (T, T),
+             ["i32", "i64"]),
+        ]
+        for sql, sx, tys in gq:
+            q = sqlgen.Q(sql, sx, tys, ["r0", "r1"], {"correlated", "grouped_sub"})
+            for opt in (True, False):
+                for bs in (2, 2048):
+                    runs.append((q, {"partitions": rng.choice([1, 2]), "enable_optimizer": opt, "batch_size": bs}))
         work.append({"id": "c09-cte2-%d" % i, "tables": tables, "runs": runs, "mode": "det", "det_partitions": 2,
                      "sched": {"kind": "fifo", "seed": 1}})
     return work
